@@ -34,6 +34,19 @@ theorem complete_at_eof (c : Cfg) (hc : 0 < c.capMax) (hst : c.strip = false) (h
   refine ⟨?_, (run_complete c hc hst hb he chunks hne).2.1⟩
   rw [captured_not_logged c hc hst hb he chunks hne, hl, if_pos rfl]
 
+
+/-- `capture_plain_invariant` (DESIGN.md C07): at every moment, for every fragmentation so far,
+    what has been decided (`items`, whose effects are exactly the observed log / events, `Sim`)
+    followed by the reference applied to what is still held equals the reference applied to the
+    whole stream so far.  ("logged ++ held" would be wrong: a held buffer equal to a whole tag is
+    still undecided.) -/
+theorem capture_plain_invariant (c : Cfg) (hc : 0 < c.capMax) (hst : c.strip = false) (hb : c.btok ≠ []) (he : c.etok ≠ [])
+    (chunks : List Bytes) (hne : ∀ x ∈ chunks, x ≠ []) :
+    ∃ items, Sim c (feedAll c chunks init) items ∧
+      items ++ spec c (feedAll c chunks init).p.mode (feedAll c chunks init).p.buf = spec c false chunks.flatten := by
+  obtain ⟨items, hs, hi⟩ := feedAll_refines c hc hst hb he chunks hne init [] (init_inv c hc)
+  exact ⟨items, hs, by simpa using hi []⟩
+
 /-! everything a step does is appended to what was observed before (the log is append-only) -/
 
 /-- `s'` extends the observations of `s` -/
